@@ -943,6 +943,32 @@ theorem filt_backward_denotes_complex_pipeline (p : Params) (hy : my p = 1 ∨ m
     funext (toC_gKerF hy), funext (toC_gKerF hx), funext (toC_gKerB hy), funext (toC_gKerB hx)]
   simp only [GRat.toC_conj]
 
+/-- **Every internal size**: the driver op `filtp` runs the same `filterP` on formal phase sums (`Fft.PSum`: finite sums of
+`c·exp(2πi t)` with rational `c`, `t`; kernels `pKerF`, `pKerB` are monomials for every `M`).  The complex number its
+output denotes (`PSum.ev`, which the harness evaluates in floating point and compares with the real
+`FourierFilter.forward`) is the complex pipeline of the theorems on the denoted inputs. -/
+theorem filtp_forward_denotes_complex_pipeline (p : Params) (D x : ℕ → ℕ → Fft.PSum) (ky kx : ℕ) :
+    PSum.ev (filterP p (pKerF (my p)) (pKerF (mx p)) (pKerB (my p)) (pKerB (mx p))
+        (Fft.PSum.ofRat (1 / ((my p * mx p : ℕ) : ℚ))) D x ky kx)
+      = filterP p (kF (my p)) (kF (mx p)) (kB (my p)) (kB (mx p)) (((my p * mx p : ℕ) : ℂ)⁻¹)
+          (fun a b => PSum.ev (D a b)) (fun a b => PSum.ev (x a b)) ky kx := by
+  unfold filterP
+  rw [filterN_map PSum.ev PSum.ev_zero PSum.ev_add PSum.ev_mul, ev_scale,
+    funext (ev_pKerF (my p)), funext (ev_pKerF (mx p)), funext (ev_pKerB (my p)), funext (ev_pKerB (mx p))]
+
+theorem filtp_backward_denotes_complex_pipeline (p : Params) (D x : ℕ → ℕ → Fft.PSum) (ky kx : ℕ) :
+    PSum.ev (filterPBackward psumConj p (pKerF (my p)) (pKerF (mx p)) (pKerB (my p)) (pKerB (mx p))
+        (Fft.PSum.ofRat (1 / ((my p * mx p : ℕ) : ℚ))) D x ky kx)
+      = filterPBackward (starRingEnd ℂ) p (kF (my p)) (kF (mx p)) (kB (my p)) (kB (mx p)) (((my p * mx p : ℕ) : ℂ)⁻¹)
+          (fun a b => PSum.ev (D a b)) (fun a b => PSum.ev (x a b)) ky kx := by
+  unfold filterPBackward filterNBackward
+  rw [filterN_map PSum.ev PSum.ev_zero PSum.ev_add PSum.ev_mul, ev_scale,
+    funext (ev_pKerF (my p)), funext (ev_pKerF (mx p)), funext (ev_pKerB (my p)), funext (ev_pKerB (mx p))]
+  simp only [ev_psumConj]
+
+/-- The inputs of `filtp` (Gaussian rationals written as `a + b·exp(2πi/4)`) denote themselves. -/
+theorem filtp_input_denotes (g : GRat) : PSum.ev (psumOfGRat g) = GRat.toC g := ev_psumOfGRat g
+
 /-- The hypotheses of the pipeline theorems are satisfiable with a genuinely padded, exactly executable size
 (`2×3` padded to `4×4`, the kernels of which are powers of `i`: a case the driver op `filt` runs). -/
 example : ∃ p : Params, padOK p = true ∧ my p = 4 ∧ mx p = 4 ∧ cutout p = some (1, 4, 1, 3) :=
